@@ -166,6 +166,7 @@ type fnReport struct {
 	Inlined     []string `json:"inlined_callees,omitempty"`
 	Unknown     []string `json:"unknown_calls,omitempty"`
 	Unsupported []string `json:"unmodelled,omitempty"`
+	Unclaimed   []string `json:"generated_but_not_claimed,omitempty"` // partial contract (`only`): proved clauses assume these hold
 }
 
 type oblReport struct {
@@ -256,7 +257,7 @@ func cmdCheck() int {
 					genErrs = append(genErrs, vc.key+": "+er)
 				}
 				rep := &fnReport{Name: vc.key, Pos: fnPosition(e, im.fn), Requires: len(fs.Requires), Ensures: len(fs.Ensures), SSAInstrs: vc.ssaInstrs,
-					Inlined: sortedKeys(vc.inlined), Unknown: sortedKeys(vc.unknownCalls), Unsupported: sortedKeys(vc.unsupported)}
+					Inlined: sortedKeys(vc.inlined), Unknown: sortedKeys(vc.unknownCalls), Unsupported: sortedKeys(vc.unsupported), Unclaimed: sortedKeys(vc.unclaimed)}
 				reports = append(reports, rep)
 				repByFn[vc.key] = rep
 				obls = append(obls, vc.obls...)
@@ -284,7 +285,7 @@ func cmdCheck() int {
 			ninv += len(l.Invs)
 		}
 		rep := &fnReport{Name: k, Pos: fnPosition(e, fn), Requires: len(fs.Requires), Ensures: len(fs.Ensures), Invariants: ninv, SSAInstrs: vc.ssaInstrs,
-			Inlined: sortedKeys(vc.inlined), Unknown: sortedKeys(vc.unknownCalls), Unsupported: sortedKeys(vc.unsupported)}
+			Inlined: sortedKeys(vc.inlined), Unknown: sortedKeys(vc.unknownCalls), Unsupported: sortedKeys(vc.unsupported), Unclaimed: sortedKeys(vc.unclaimed)}
 		reports = append(reports, rep)
 		repByFn[k] = rep
 		obls = append(obls, expandSplits(vc, fs)...)
